@@ -190,6 +190,14 @@ func (s attemptScript) body() []byte {
 
 func scriptHandler(script []attemptScript, calls *int) http.Handler {
 	return http.HandlerFunc(func(w http.ResponseWriter, r *http.Request) {
+		if n := r.Header.Get("X-Prelude"); n != "" {
+			// an earlier, unrelated exchange through the same buffer instance (its answer is
+			// not this property's business): a response larger than the configured maximum
+			k, _ := strconv.Atoi(n)
+			w.WriteHeader(200)
+			_, _ = w.Write(make([]byte, k))
+			return
+		}
 		i := *calls
 		*calls++
 		s := script[i%len(script)]
@@ -242,6 +250,10 @@ type caseSpec struct {
 	expr   node
 	script []attemptScript
 	memThr int64
+	// maxResp > 0: MaxResponseBodyBytes (larger than anything the scripts write); preludes: how
+	// many over-limit exchanges went through the same buffer instance before the case proper
+	maxResp  int64
+	preludes int
 }
 
 func genCase(t *rapid.T) *caseSpec {
@@ -251,6 +263,10 @@ func genCase(t *rapid.T) *caseSpec {
 	}
 	c.script = genScript(t)
 	c.memThr = rapid.SampledFrom([]int64{0, 1, 64, 1 << 20}).Draw(t, "memResponse")
+	if rapid.IntRange(0, 3).Draw(t, "maxResponse") == 0 {
+		c.maxResp = rapid.SampledFrom([]int64{32768, 1 << 20}).Draw(t, "maxResp")
+		c.preludes = rapid.IntRange(0, 3).Draw(t, "preludes")
+	}
 	return c
 }
 
@@ -261,6 +277,9 @@ func (c *caseSpec) buffer(t *rapid.T, calls *int) *buffer.Buffer {
 	}
 	if c.memThr > 0 {
 		opts = append(opts, buffer.MemResponseBodyBytes(c.memThr))
+	}
+	if c.maxResp > 0 {
+		opts = append(opts, buffer.MaxResponseBodyBytes(c.maxResp))
 	}
 	b, err := buffer.New(scriptHandler(c.script, calls), opts...)
 	if err != nil {
@@ -282,7 +301,7 @@ func (c *caseSpec) describe() string {
 	for _, s := range c.script {
 		ss = append(ss, fmt.Sprintf("{status:%d headers:%v writes:%d bytes in %d writes explicitCL:%v}", s.status, s.headers, len(s.body()), len(s.writes), s.explicit))
 	}
-	return fmt.Sprintf("method=%s retry=%q memResponse=%d script=[%s]", c.method, src, c.memThr, strings.Join(ss, " "))
+	return fmt.Sprintf("method=%s retry=%q memResponse=%d maxResponse=%d after %d over-limit exchanges script=[%s]", c.method, src, c.memThr, c.maxResp, c.preludes, strings.Join(ss, " "))
 }
 
 func (c *caseSpec) record(how string, want int) {
@@ -311,6 +330,9 @@ func (c *caseSpec) record(how string, want int) {
 	if c.expr != nil && c.expr.bools() >= 1 {
 		cl = append(cl, "expression-with-and/or")
 	}
+	if c.preludes > 0 {
+		cl = append(cl, "after-over-limit-exchange-on-same-instance")
+	}
 	vstat.Case(how+"|"+c.describe(), nt, cl, map[string]any{"how": how, "case": c.describe(), "expected_invocations": want})
 }
 
@@ -319,6 +341,11 @@ func TestC07_InProcess(t *testing.T) {
 		c := genCase(t)
 		calls := 0
 		b := c.buffer(t, &calls)
+		for k := 0; k < c.preludes; k++ {
+			pre := httptest.NewRequest("GET", "http://front/prelude", nil)
+			pre.Header.Set("X-Prelude", strconv.FormatInt(c.maxResp+1+int64(k), 10))
+			b.ServeHTTP(sim.NewRecorder(), pre)
+		}
 		rec := sim.NewRecorder()
 		req := httptest.NewRequest(c.method, "http://front/x", nil)
 		func() {
@@ -364,6 +391,7 @@ func TestC07_InProcess(t *testing.T) {
 func TestC07_RealServer(t *testing.T) {
 	rapid.Check(t, func(t *rapid.T) {
 		c := genCase(t)
+		c.preludes = 0
 		calls := 0
 		b := c.buffer(t, &calls)
 		srv, err := frontServer()
